@@ -56,12 +56,33 @@ Theorem C28_only_issued_commands_act : forall (issued : N -> N -> N -> Prop) cfg
 Proof. exact only_issued_commands_act. Qed.
 Print Assumptions C28_only_issued_commands_act.
 
+(** The one way a command is forwarded later than it was received: the
+    flooder keeps the last accepted wake command and sends it to peers that
+    connect within SeenCacheTTL.  In every history of frames and peer
+    connections that starts without a pending command, whatever a connecting
+    peer is sent is a wake command that passed [verify] (non-zero valid
+    signature, timestamp inside the window, when a key is configured) at the
+    instant [at_] it was accepted, at most SeenCacheTTL before.  (The timestamp
+    may have left the window by the time of this re-send; receivers check it
+    again.) *)
+Theorem C28_pending_wake_forward_sound : forall cfg peers h st,
+  pending_ok cfg st ->
+  forall now p ef, In (now, APeerUp p, ef) (arun cfg peers st h) ->
+  forall e, In e ef -> exists c at_, e = EForward KWake p c /\ verify cfg at_ c = true /\ now - at_ <= f_ttl cfg.
+Proof. exact pending_forward_sound. Qed.
+Print Assumptions C28_pending_wake_forward_sound.
+
+Theorem C28_verify_means_signed : forall cfg t c, f_signing cfg = true -> verify cfg t c = true ->
+  c_sigzero c = false /\ c_sigok c = true.
+Proof. exact verify_signature_part. Qed.
+Print Assumptions C28_verify_means_signed.
+
 (** The code before the repairs violated the property twice. *)
 Theorem C28_refuted_queued_pre_fix :
   let cfg := default_cfg true in
   let now := 946684800 * second in
   exists st' ef now',
-    on_frame_pre_fix cfg now model_peers 1%N (FQueued (Some unsigned_cmd) None) (mkastate Awake []) = (st', ef, now') /\
+    on_frame_pre_fix cfg now model_peers 1%N (FQueued (Some unsigned_cmd) None) (mkastate Awake [] None) = (st', ef, now') /\
     a_sleep st' = Sleeping /\ In (EState Awake Sleeping) ef /\
     verify cfg now unsigned_cmd = false.
 Proof. exact queued_unverified_pre_fix. Qed.
@@ -81,8 +102,8 @@ Theorem C28_nonvacuous :
   let cfg := default_cfg true in
   let now := 946684800 * second + 5 in
   sane cfg now /\ sane cfg (now + settle_delay KSleep) /\ wf_cmd good_cmd /\
-  on_frame cfg now model_peers 1%N (FSleep good_cmd) (mkastate Awake [])
-  = (mkastate Sleeping [mkentry 10 1 now 1], [EForward KSleep 3%N good_cmd; ECallback KSleep; EState Awake Sleeping], now + 100000000).
+  on_frame cfg now model_peers 1%N (FSleep good_cmd) (mkastate Awake [] None)
+  = (mkastate Sleeping [mkentry 10 1 now 1] None, [EForward KSleep 3%N good_cmd; ECallback KSleep; EState Awake Sleeping], now + 100000000).
 Proof. exact good_command_acts. Qed.
 Print Assumptions C28_nonvacuous.
 
